@@ -125,7 +125,9 @@ def battery(ef):
         part(lambda: out.extend(iter_fn()))          # the library's own loop; stops at its first exception
         i = len(out) + 1
         failures = 0
-        while i < n[0] and failures < MAX_ENUM_FAILURES:    # go on behind a header that could not be made into an object
+        # go on behind a header that could not be made into an object - but never further than a table in this file can be long
+        last = min(n[0], i + getattr(ef, 'stream_len', 1 << 20) // 8 + 64)
+        while i < last and failures < MAX_ENUM_FAILURES:
             try:
                 out.append(get_fn(i))
             except core.CallTimeout:
@@ -223,6 +225,7 @@ def apply_plan(seed, patches, trunc):
 _SEEDS = {}
 _NOBUDGET = False
 _RUNAWAYS = None        # multiprocessing.Value shared by the forked workers
+_TIMEOUTS = None        # cases that ran into the WALL backstop (a loop that does not even read): each costs WALL_ENUM seconds
 _LIMIT = 1 << 30
 
 
@@ -238,14 +241,17 @@ def _work(chunk):
     core.use_repo()
     out = []
     for idx, s, patches, trunc, mem in chunk:
-        if _RUNAWAYS is not None and _RUNAWAYS.value >= _LIMIT:
-            out.append((idx, None))                      # not executed: too many runaway cases already
+        if _RUNAWAYS is not None and (_RUNAWAYS.value >= _LIMIT or _TIMEOUTS.value >= 2 * core.NPROC):
+            out.append((idx, None))                      # not executed: too many runaway cases already (the verdict is decided)
             continue
         data = apply_plan(_SEEDS[s], patches, trunc) if s is not None else bytes(patches)
         r = execute(data, measure_mem=mem, budget=not _NOBUDGET)
         if _RUNAWAYS is not None and ((r['ctor'] == 'OK' and r['enum'] != 'ok') or r['ctor'] in ('budget', 'timeout', 'memory')):
             with _RUNAWAYS.get_lock():
                 _RUNAWAYS.value += 1
+        if _TIMEOUTS is not None and 'timeout' in (r['ctor'], r['enum']):
+            with _TIMEOUTS.get_lock():
+                _TIMEOUTS.value += 1
         out.append((idx, r))
     return out
 
@@ -253,8 +259,9 @@ def _work(chunk):
 def run_all(jobs):
     """jobs: [(idx, seed index | None, patches | raw bytes, trunc, measure memory?)] -> {idx: result}"""
     import multiprocessing
-    global _RUNAWAYS
+    global _RUNAWAYS, _TIMEOUTS
     _RUNAWAYS = multiprocessing.Value('i', 0)
+    _TIMEOUTS = multiprocessing.Value('i', 0)
     res = {}
     size = 64
     chunks = [jobs[i:i + size] for i in range(0, len(jobs), size)]
